@@ -14,7 +14,7 @@ import (
 	"testing"
 )
 
-func TestVerifC18(t *testing.T) {
+func TestVerifC18Core(t *testing.T) {
 	rec := newRec(t, "C18")
 	defer rec.finish(t)
 	env := rec.env
@@ -184,5 +184,11 @@ func TestVerifC18(t *testing.T) {
 			rec.sample("forged-acks", 2, scenarioBrief(&sc))
 		}
 	})
+}
+
+func TestVerifC18Sess(t *testing.T) {
+	rec := newRec(t, "C18")
+	defer rec.finish(t)
+	var caseIdx int64 = 1 << 32
 	c18SessionPart(t, rec, &caseIdx)
 }
